@@ -415,6 +415,21 @@ func (f *functionCaller) CallFunction(name string, arguments []interface{}, intr
 	return entry.handler(resolvedArgs)
 }
 
+// toInterfaceSlice returns an argument that passed the "array" type check as
+// []interface{}. User provided typed slices (for example []string) are
+// copied element by element.
+func toInterfaceSlice(arg interface{}) []interface{} {
+	if s, ok := arg.([]interface{}); ok {
+		return s
+	}
+	v := reflect.ValueOf(arg)
+	converted := make([]interface{}, v.Len())
+	for i := range converted {
+		converted[i] = v.Index(i).Interface()
+	}
+	return converted
+}
+
 func jpfAbs(arguments []interface{}) (interface{}, error) {
 	num := arguments[0].(float64)
 	return math.Abs(num), nil
@@ -468,7 +483,7 @@ func jpfContains(arguments []interface{}) (interface{}, error) {
 		return false, nil
 	}
 	// Otherwise this is a generic contains for []interface{}
-	general := search.([]interface{})
+	general := toInterfaceSlice(search)
 	for _, item := range general {
 		if objsEqual(item, el) {
 			return true, nil
@@ -489,7 +504,7 @@ func jpfMap(arguments []interface{}) (interface{}, error) {
 	intr := arguments[0].(*treeInterpreter)
 	exp := arguments[1].(expRef)
 	node := exp.ref
-	arr := arguments[2].([]interface{})
+	arr := toInterfaceSlice(arguments[2])
 	mapped := make([]interface{}, 0, len(arr))
 	for _, value := range arr {
 		current, err := intr.Execute(node, value)
@@ -544,7 +559,7 @@ func jpfMerge(arguments []interface{}) (interface{}, error) {
 }
 func jpfMaxBy(arguments []interface{}) (interface{}, error) {
 	intr := arguments[0].(*treeInterpreter)
-	arr := arguments[1].([]interface{})
+	arr := toInterfaceSlice(arguments[1])
 	exp := arguments[2].(expRef)
 	node := exp.ref
 	if len(arr) == 0 {
@@ -638,7 +653,7 @@ func jpfMin(arguments []interface{}) (interface{}, error) {
 
 func jpfMinBy(arguments []interface{}) (interface{}, error) {
 	intr := arguments[0].(*treeInterpreter)
-	arr := arguments[1].([]interface{})
+	arr := toInterfaceSlice(arguments[1])
 	exp := arguments[2].(expRef)
 	node := exp.ref
 	if len(arr) == 0 {
@@ -748,7 +763,7 @@ func jpfSort(arguments []interface{}) (interface{}, error) {
 }
 func jpfSortBy(arguments []interface{}) (interface{}, error) {
 	intr := arguments[0].(*treeInterpreter)
-	arr := arguments[1].([]interface{})
+	arr := toInterfaceSlice(arguments[1])
 	exp := arguments[2].(expRef)
 	node := exp.ref
 	if len(arr) == 0 {
@@ -797,7 +812,7 @@ func jpfReverse(arguments []interface{}) (interface{}, error) {
 		}
 		return string(r), nil
 	}
-	items := arguments[0].([]interface{})
+	items := toInterfaceSlice(arguments[0])
 	length := len(items)
 	reversed := make([]interface{}, length)
 	for i, item := range items {
